@@ -692,3 +692,46 @@ pub fn info(args: &Args) -> i32 {
     }
     0
 }
+
+/// spec -> impl for the catalogue of MC_Deflate: every production of the
+/// grammar, every way it can fail, and end of input inside every field
+pub fn edge_replay(args: &Args) -> i32 {
+    quiet_panics();
+    let f = std::fs::File::open(args.req("in")).unwrap();
+    let mut out = std::io::BufWriter::new(std::fs::File::create(args.req("out")).unwrap());
+    for (i, line) in std::io::BufReader::new(f).lines().enumerate() {
+        let line = line.unwrap();
+        if line.trim().is_empty() {
+            continue;
+        }
+        let case: Value = serde_json::from_str(&line).unwrap();
+        let bytes: Vec<u8> = case["bytes"].as_array().unwrap().iter().map(|x| x.as_u64().unwrap() as u8).collect();
+        let accept = case["verdict"].as_str() == Some("accept");
+        let z = gen::zlib_inflate_raw(&bytes, 1 << 20);
+        let mut model_error: Option<String> = None;
+        if z.ok != accept {
+            model_error = Some(format!("specification says {} ({}) but zlib says ok={}", case["verdict"], case["reason"], z.ok));
+        } else if accept && (z.consumed as u64 != case["consumed"].as_u64().unwrap() || z.plain.len() as u64 != case["plain"].as_u64().unwrap()) {
+            model_error = Some(format!("specification and zlib disagree on consumed / plaintext length ({} / {} vs {} / {})", case["consumed"], case["plain"], z.consumed, z.plain.len()));
+        }
+        let mut rng = Rng::new(i as u64);
+        let mut o = check_stream(&bytes, None, &mut rng);
+        o.model_error = model_error;
+        // what the real parser reports for inputs the specification accepts
+        if accept {
+            if let Ok(Ok(t)) = guarded(|| verif::parse(&bytes)) {
+                let want: Vec<(u8, Vec<Value>)> = case["blocks"].as_array().unwrap().iter().map(|b| (b["type"].as_u64().unwrap() as u8, b["toks"].as_array().unwrap().clone())).collect();
+                let got: Vec<(u8, Vec<Value>)> = t.blocks.iter().map(|b| (b.block_type, b.tokens.iter().map(tok_json).collect())).collect();
+                if want != got {
+                    o.viol.push(Viol { prop: "C03", sig: "parse-differs-from-spec".into(), why: format!("the parser's blocks/tokens differ from the specification's on catalogue entry {}", case["name"]) });
+                }
+            }
+        }
+        let libok = o.lib.starts_with("ok");
+        let mut j = outcome_json(&format!("e{}", i), &format!("{}@{}", case["name"].as_str().unwrap_or(""), case["cut"]), &bytes, &o, true);
+        j["spec"] = json!({"verdict": case["verdict"], "reason": case["reason"], "lenient": case["lenient"], "whole": case["whole"]});
+        j["leniency"] = json!(!accept && libok);
+        writeln!(out, "{}", j).unwrap();
+    }
+    0
+}
